@@ -143,6 +143,16 @@ impl Stack {
         self.stack[frame.rp as usize + index] = value;
     }
 
+    /// The number of values on the stack.
+    pub(crate) fn len(&self) -> usize {
+        self.stack.len()
+    }
+
+    /// Truncate the stack to `len` values.
+    pub(crate) fn truncate(&mut self, len: usize) {
+        self.stack.truncate(len);
+    }
+
     /// Truncate the stack to the given frame.
     pub(crate) fn truncate_to_frame(&mut self, frame: &CallFrame) {
         self.stack.truncate(frame.frame_pointer());
